@@ -24,13 +24,18 @@ PROPS["C04"] = {
     "thorough": _hx_levels(4, "reduced", _TINY, cap=60000) + _hx_levels(3, "full", _TINY) + _hx_levels(3, "reduced", []),
     "thorough_deadline": 2400,
 }
+_LEDGER_INPUTS = [{"src": "checks/ix_ledger.cpp", "mode": "ledger-inputs", "deps": ["checks/ix_ledger.hpp"]},
+                  {"src": "checks/ix_ledger.cpp", "mode": "ledger-inputs", "deps": ["checks/ix_ledger.hpp"], "defs": ["ARDUINOJSON_STRING_LENGTH_SIZE=1"]}]
+
 PROPS["C06"] = {
     "level": "model_checking",
     "technique": "the same explicit-state search as C04 on instrumented ledger allocators: exactly-once release, allocator identity, "
                  "free-list-before-new-pool probe, string reference counts via the inspector, frozen allocators during reads",
-    "rule": "as C04; every transition additionally checked against the live-block ledger of both allocators, at clear() and at destruction",
+    "rule": "as C04; every transition additionally checked against the live-block ledger of both allocators, at clear() and at destruction; plus deserializer "
+            "inputs on a ledger allocator (every string length around the builder and maximum-length boundaries, hostile MessagePack headers, all short MessagePack "
+            "byte strings, generated documents): exactly-once release, no call during reads, peak bounded by one maximum-size string + linear in the bytes consumed",
     "assumptions": _HX_ASSUME,
-    "quick": _hx_levels(3, "reduced", _TINY),
-    "thorough": _hx_levels(4, "reduced", _TINY, cap=60000) + _hx_levels(3, "full", _TINY),
+    "quick": _hx_levels(3, "reduced", _TINY) + _LEDGER_INPUTS,
+    "thorough": _hx_levels(4, "reduced", _TINY, cap=60000) + _hx_levels(3, "full", _TINY) + _LEDGER_INPUTS,
     "thorough_deadline": 2400,
 }
